@@ -28,6 +28,15 @@ def representations(key):
     extra = dict(d, use="sig" if key.key_type != "oct" else "enc", alg="A", kid="custom-kid")
     reps.append(("jwk-with-optional-members", cls.import_key(extra)))
     reps.append(("jwk-with-empty-kid", cls.import_key(dict(d, kid=""))))
+    # members that are in no registry at all (WebCrypto's "ext", bookkeeping members of a JWKS, vendor extensions), and
+    # members that belong to another key type: none of them is a required member of this key type
+    foreign = {"oct": {"crv": "P-256", "e": "AQAB"}, "RSA": {"crv": "P-256", "k": "AAAA"}, "EC": {"e": "AQAB", "k": "AAAA"}, "OKP": {"e": "AQAB", "y": "AAAA"}}[key.key_type]
+    for rname, more in (("jwk-with-unregistered-members", {"ext": True, "iat": 1700000000, "x-vendor": {"a": [1, 2]}, "rotation": "2026-09"}),
+                        ("jwk-with-ext-only", {"ext": True}), ("jwk-with-other-types-members", foreign)):
+        try:
+            reps.append((rname, cls.import_key(dict(d, **more))))
+        except Exception:  # noqa: BLE001 - an importer may refuse them; then there is nothing to compare
+            pass
     reps.append(("jwk-with-kid-0", cls.import_key(dict(d, kid="0"))))
     if key.key_type != "oct":
         reps.append(("jwk-public", cls.import_key(key.as_dict(private=False))))
@@ -36,6 +45,7 @@ def representations(key):
         if key.is_private:
             reps.append(("pem-private", cls.import_key(key.as_pem(private=True))))
             reps.append(("pem-private-empty-kid-parameter", cls.import_key(key.as_pem(private=True), {"kid": ""})))
+            reps.append(("pem-private-unregistered-parameters", cls.import_key(key.as_pem(private=True), {"use": "sig", "rotation": "2026-09", "ext": True})))
             reps.append(("der-private", cls.import_key(key.as_der(private=True))))
             reps.append(("pem-encrypted", cls.import_key(key.as_pem(private=True, password="pw"), password="pw")))
     return reps
